@@ -200,6 +200,16 @@ impl Scenario for FixedFraction {
             };
             rates.push(bits);
         }
+        // half of the runs: rates that differ, but by less than f32::EPSILON in absolute terms, next to each other
+        if rng.chance(0.5) {
+            let small = *rng.pick(&[1e-6f32, 5e-8, 3e-5, 1e-7, 1e-30]);
+            rates.push(small.to_bits());
+            rates.push(match rng.below(3) {
+                0 => (small * 1.05).to_bits(),
+                1 => (small * 0.5).to_bits(),
+                _ => 1e-30f32.to_bits(),
+            });
+        }
         json!({"sched": {"seed": rng.next_u64() >> 1}, "rates": rates, "draw_words": (0..4).map(|_| rng.next_u64()).collect::<Vec<_>>(), "via_default_rng": rng.chance(0.4)})
     }
     fn run(&self, plan: &Value) -> Report {
@@ -339,6 +349,29 @@ impl Scenario for FixedFraction {
                 }
             }
         }
+        // one long-lived sampling formatter sees all the rates of the run one after the other (forwards, then
+        // backwards): the weight it applies depends on (rate, draw) only, never on the rates it saw before
+        if r.violation.is_none() {
+            let rng = ScriptRng::new();
+            let mut long_lived = Emf::all_validations("Ns".into(), vec![vec![]]).with_sampling_and_rng(rng.clone());
+            let seq: Vec<f32> = ja(plan, "rates").iter().map(|rb| f32::from_bits(rb.as_u64().unwrap_or(0) as u32)).filter(|x| x.is_finite() && *x > 0.0 && *x <= 1.0).collect();
+            let rev: Vec<f32> = seq.iter().rev().copied().collect();
+            for (i, rate) in seq.iter().chain(rev.iter()).enumerate() {
+                let word = if i % 2 == 0 { 0 } else { u64::MAX };
+                rng.word.store(word, Ordering::SeqCst);
+                let mut out = vec![];
+                let got = long_lived.format_with_sample_rate(&SEntry { id: 5, group: "g".into() }, &mut out, *rate).map(|_| counts_in(&out)).map_err(|e| format!("{e}"));
+                let want = emf_weight(*rate, word, false);
+                if got != want {
+                    r.violation = Some(Violation::new(
+                        "weight_depends_on_earlier_rates",
+                        format!("rate {rate:e} (draw word {word:#x}) after {} earlier calls on the same sampling formatter: counts {got:?}, a fresh formatter gives {want:?}", i),
+                    ));
+                    break;
+                }
+                r.probe("rate_sequence_on_one_formatter", 1);
+            }
+        }
         r.nontrivial = true;
         r.case_sig = sig;
         *r.probes.entry("decisions_checked".into()).or_insert(0) += cases;
@@ -347,13 +380,13 @@ impl Scenario for FixedFraction {
         r
     }
     fn probes(&self) -> Vec<&'static str> {
-        vec!["emitted", "dropped", "weight_saturated", "reciprocal_above_2_53", "unbiasedness_bisected", "decisions_checked", "through_default_rng_wrapper"]
+        vec!["emitted", "dropped", "weight_saturated", "reciprocal_above_2_53", "unbiasedness_bisected", "decisions_checked", "through_default_rng_wrapper", "rate_sequence_on_one_formatter"]
     }
     fn components(&self) -> Value {
         json!({"real": ["FixedFractionSample", "SampledEmf::format_with_sample_rate / rate_to_n / rate_to_n_alpha", "Emf"], "simulated_seams": ["RngCore (scripted: draw placed below / on / above the rate; bisected for the weight threshold)"], "harness": ["recording SampledFormat", "Counts parser"], "stub": []})
     }
     fn rule(&self) -> &'static str {
-        "each run: 6 rates drawn over the whole f32 range in (0,1] (uniform in bit pattern, 1.0, 1/k, subnormals, reciprocals straddling 2^53 and 2^63); per rate the sampling draw is scripted to 0, just below, exactly on, just above the rate, the maximum and random words (emit iff draw <= rate, same rate passed on), and the EMF weight is read back from the Counts arrays for the extreme draws and bisected for the switch point (floor/ceil, saturation, expectation = 1/rate). non-trivial = every run; distinct = distinct (rates, draw words)"
+        "each run: 6-8 rates (the last two, in half of the runs, differing by less than f32::EPSILON in absolute terms) drawn over the whole f32 range in (0,1], all of them also fed one after the other to one long-lived sampling formatter whose weights must equal a fresh formatter's; (uniform in bit pattern, 1.0, 1/k, subnormals, reciprocals straddling 2^53 and 2^63); per rate the sampling draw is scripted to 0, just below, exactly on, just above the rate, the maximum and random words (emit iff draw <= rate, same rate passed on), and the EMF weight is read back from the Counts arrays for the extreme draws and bisected for the switch point (floor/ceil, saturation, expectation = 1/rate). non-trivial = every run; distinct = distinct (rates, draw words)"
     }
 }
 
